@@ -187,6 +187,22 @@ def dispatch_eval(prog):
         except PyRaise as pr:
             if pr.name != "Boom" or [c[0] for c in log] != ["push", "call", "pop"]:
                 out["scope"] = "when a keyword function raises, the scope entered for the schema's id is not left (%r)" % ([c[0] for c in log],)
+        # the same with the package's own resolver (what pop_scope answers is its business; leaving a scope must not swallow anything)
+        try:
+            RR = ClsRef(ev, prog.cls("validators.RefResolver"))
+            real = RR("http://x/root/", {})
+            vreal = V({"$id": "http://x/sub/", "kx": 1}, resolver=real)
+            try:
+                list(g(vreal, "iter_errors")(I))
+                out["scope"] = out["scope"] or "with the package's own resolver an exception from a keyword function under a schema with an id is swallowed"
+            except PyRaise as pr:
+                if pr.name != "Boom":
+                    out["scope"] = out["scope"] or "with the package's own resolver an exception from a keyword function surfaces as %s" % pr.name
+            if list(ev.obj_getattr(real, "_scopes_stack")) != ["http://x/root/"]:
+                out["scope"] = out["scope"] or "with the package's own resolver the scope entered for the schema's id is not left when a keyword function raises (%r)" % (
+                    list(ev.obj_getattr(real, "_scopes_stack")),)
+        except Undecided:
+            pass
         # boolean schemas
         out["boolean"] = None
         if run(True):
@@ -314,6 +330,11 @@ def classes_eval(prog):
             W3 = ev.call_func(extend, [V], {})
             if ca(W3, "VALIDATORS") != ca(V, "VALIDATORS") or ca(W3, "VALIDATORS") is ca(V, "VALIDATORS") or ca(W3, "META_SCHEMA") != ca(V, "META_SCHEMA"):
                 out["extend"] = "extend() with no changes does not give an equal, separate class"
+            # whatever else is given to extend() -- a type checker, new keywords, both, nothing -- everything not given comes from the parent
+            for how, Wx in (("a type checker", W2), ("nothing", W3), ("keywords and a type checker", ev.call_func(extend, [V], {"validators": {"k9": k9}, "type_checker": tc}))):
+                if out["extend"] is None and (ca(Wx, "ID_OF")({"id": "http://q/"}) != "http://q/" or ca(Wx, "ID_OF")({"$id": "http://q/"}) != ""
+                                              or ca(Wx, "META_SCHEMA") != ca(V, "META_SCHEMA")):
+                    out["extend"] = "a class extended with %s does not read schema ids (or carry the metaschema) the way its parent does" % how
         # a parent created the deprecated way (default_types=...) hands its own type checks on as well
         if out["extend"] is None:
             with warnings.catch_warnings(record=True):
@@ -383,6 +404,15 @@ def classes_eval(prog):
             V3 = ev.call_func(prog.func("validators.create"), [], {"meta_schema": {"id": "http://m/v1#"}, "validators": {}, "version": "v3", "id_of": id_of})
             if reg_m.get("http://m/v1") is not V3:
                 out["registers"] = "a class registered later under the same metaschema id does not become the one selected"
+            # the version label is a string like any other: the empty one registers the class too (`version is not None` decides)
+            Ve = ev.call_func(prog.func("validators.create"), [], {"meta_schema": {"id": "http://m/empty-version#"}, "validators": {}, "version": "", "id_of": id_of})
+            if reg_m.get("http://m/empty-version") is not Ve or reg_v.get("") is not Ve:
+                out["registers"] = out["registers"] or "create(version='') does not register the class (by version %r, by metaschema id %r)" % (
+                    reg_v.get(""), reg_m.get("http://m/empty-version"))
+            for k in ("http://m/empty-version",):
+                if k in reg_m:
+                    ev.native(lambda k=k: reg_m.__delitem__(k))
+            reg_v.pop("", None)
             # an id with a non-empty fragment is registered as written (only an empty fragment is immaterial)
             V4 = ev.call_func(prog.func("validators.create"), [], {"meta_schema": {"id": "http://m/v4#frag"}, "validators": {}, "version": "v4", "id_of": id_of})
             if reg_m.get("http://m/v4#frag") is not V4 or "http://m/v4" in reg_m:
